@@ -433,7 +433,8 @@ func VerifC19_AddVersionHistory() {
 	added := map[int]bool{}
 	for s := 0; s < n; s++ {
 		tag := "add" + string(rune('0'+s))
-		rank := 1 + rt.Choice(tag+".version", 3)
+		// (rank 0: the dev version, spelled "0" as in the file name name_v0.ext)
+		rank := rt.Choice(tag+".version", 4)
 		a, cur := rt.Bool(tag+".available"), rt.Bool(tag+".current")
 		rt.Assert(res.AddVersion(c19Numbers[rank], a, cur, false) == nil, "addversion/ok")
 		added[rank] = true
@@ -451,10 +452,10 @@ func VerifC19_AddVersionHistory() {
 			seen[rv.VersionNumber] = true
 			if rv.CurrentRelease {
 				flagged++
-				rt.Assert(current >= 0 && rv.VersionNumber == c19Numbers[current], "addversion/current-release-is-the-latest-one-named")
+				rt.Assert(current >= 0 && rankOf(rv) == current, "addversion/current-release-is-the-latest-one-named")
 			}
-			for r := 1; r <= 3; r++ {
-				if rv.VersionNumber == c19Numbers[r] {
+			for r := 0; r <= 3; r++ {
+				if rankOf(rv) == r {
 					rt.Assert(rv.Available == avail[r], "addversion/available-flag-accumulates")
 				}
 			}
@@ -465,7 +466,7 @@ func VerifC19_AddVersionHistory() {
 		}
 		rt.Assert(flagged == want, "addversion/exactly-one-current-release")
 		cnt := 0
-		for r := 1; r <= 3; r++ {
+		for r := 0; r <= 3; r++ {
 			if added[r] {
 				cnt++
 			}
